@@ -329,6 +329,7 @@ func Link(
 	}
 
 	c.computeChunks()
+	verifObserveChunkOrder(&c)
 	c.computeCrossChunkDependencies()
 
 	// Merge mangled properties before chunks are generated since the names must
